@@ -13,7 +13,8 @@
                      step of another stage enabled it: the executor lets the real stage ENTER the operation
                      before that step, so the real operation really blocks and is woken up
    and the behaviour ends with the composed exception and the pipeline's output.
-   Scripts: archetypes without IterateInputs (its goroutines cannot be gated); every tuple of GN stages. *)
+   Scripts: archetypes without IterateInputs (its goroutines cannot be gated); every tuple of GN stages
+   (GLevel 1, 2) or the reader-gone chains of three stages (GLevel 3). *)
 EXTENDS Pipeline, Json
 CONSTANTS GN, GLevel
 VARIABLES hist, enPrev, lastS
@@ -32,7 +33,14 @@ GArchMore ==
   { <<PV(1), PB(1), PV(2), OK>>, <<GB, PV(1), GB, PV(2), OK>>, <<GV, PB(1), GV, PB(2), OK>>, <<GB, OK>>, <<TH>>,
     <<PV(1), PV(2), GV, OK>>, <<GV, GV, PV(1), PV(2), TH>> }
 GArch == IF GLevel = 1 THEN GArchCore ELSE GArchCore \cup GArchMore
-GTuples == {x \in [1..GN -> GArch] : CrossBandFreeScripts(x)}
+\* GLevel = 3 (GN = 3): the reader-gone CHAIN: a producer of more than Cap values, a middle stage that is itself
+\* stopped by reader-gone without draining its input, an early-exiting consumer.  The stopped middle stage must
+\* still signal ITS upstream (Pipeline.ExitStep does so whatever the stage's exception is).
+GChain == {<<p, m, c>> : p \in {<<PV(1), PV(2), PV(3), OK>>},
+                         m \in {<<PV(1), PV(2), PV(3), OK>>, <<GV, PV(1), GV, PV(2), OK>>, <<PV(1), PV(2), GV, OK>>},
+                         c \in {<<GV, OK>>, <<OK>>, <<GV, TH>>}}
+GTuples == IF GLevel = 3 THEN {x \in GChain : CrossBandFreeScripts(x)}
+           ELSE {x \in [1..GN -> GArch] : CrossBandFreeScripts(x)}
 Ident(x) == x
 OpEnabled(t) ==
   /\ sg[t].st = "run"
